@@ -347,6 +347,14 @@ def handle (line : String) : String :=
         if ecls != "error" then "SPEC C05:open-error-not-surfaced"
         else if rres != octet then "SPEC C02:error-result-not-octet-stream" else "OK"
       | _ => "SPEC C01:no-result(" ++ goRes ++ ")"
+    | ["mono", _hx, _l1, _l2] =>
+      match goRes.splitOn " " with
+      | [c1, c2] =>
+        let isBin := fun (c : String) =>
+          let items := c.splitOn ","
+          items.length ≥ 2 && !(items.any (fun e => (e.splitOn "|").head? == some (bhex mimeTextPlain)))
+        if isBin c1 && !isBin c2 then "SPEC C17:binary-identification-lost-at-larger-limit" else "OK"
+      | _ => "SPEC C01:no-result(" ++ goRes ++ ")"
     | ["treeeq"] =>
       let m := String.intercalate " " (dumpTree Gen.builtin)
       if m == goRes then "OK" else s!"DIFF tree model={m}"
